@@ -1,0 +1,188 @@
+//go:build verif
+
+// Machine-checked contracts for package adaptation.  This file contains only a
+// package clause and comments; it is compiled only with the build tag "verif".
+// The contracts are read by /verif/bin/nriverif, which generates verification
+// conditions from the SSA form of the real functions and discharges them with
+// SMT solvers.  Syntax: see /verif/DESIGN.md section 3.
+
+package adaptation
+
+// ---------------------------------------------------------------------------
+// Ownership ledger (result.go: owners, resultOwners)
+// ---------------------------------------------------------------------------
+
+//@ pure wfRO(ro resultOwners) = ro != nil && forall j string :: has(ro, j) ==> allocated(ro[j])
+
+//@ template claimScalar(M, F)
+//@ func owners.$M
+//@   props C01 C02 C05
+//@   requires o != nil
+//@   modifies o.$F
+//@   ensures [taken] old(o.$F) != "" ==> result != nil && o.$F == old(o.$F)
+//@   ensures [free]  old(o.$F) == "" ==> result == nil && o.$F == plugin
+//@ end
+
+//@ template claimKeyed(M, F, K)
+//@ func owners.$M
+//@   props C01 C02 C05
+//@   requires o != nil
+//@   modifies o.$F, map(o.$F)
+//@   ensures [taken] old(has(o.$F, $K)) ==> result != nil && o.$F == old(o.$F)
+//@        && forall k string :: has(o.$F, k) == old(has(o.$F, k)) && o.$F[k] == old(o.$F[k])
+//@   ensures [free]  !old(has(o.$F, $K)) ==> result == nil && o.$F != nil && has(o.$F, $K) && o.$F[$K] == plugin
+//@        && forall k string :: k != $K ==> has(o.$F, k) == old(has(o.$F, k)) && o.$F[k] == old(o.$F[k])
+//@   ensures [stable] old(o.$F) != nil ==> o.$F == old(o.$F)
+//@   ensures [freshmap] old(o.$F) == nil ==> fresh(o.$F) || o.$F == nil
+//@ end
+
+//@ template clearKeyed(M, F, K)
+//@ func owners.$M
+//@   props C01 C02
+//@   requires o != nil
+//@   modifies map(o.$F)
+//@   ensures [cleared] !has(o.$F, $K)
+//@   ensures [others]  forall k string :: k != $K ==> has(o.$F, k) == old(has(o.$F, k)) && o.$F[k] == old(o.$F[k])
+//@ end
+
+//@ func owners.clearArgs
+//@   props C01 C02
+//@   requires o != nil
+//@   modifies o.args
+//@   ensures o.args == ""
+
+//@ func conflict
+//@   props C01 C02
+//@   ensures result != nil
+
+//@ func resultOwners.ownersFor
+//@   props C01 C02 C05
+//@   requires wfRO(ro)
+//@   modifies map(ro)
+//@   ensures wfRO(ro) && has(ro, id) && result == ro[id] && result != nil
+//@   ensures forall j string :: j != id ==> has(ro, j) == old(has(ro, j)) && ro[j] == old(ro[j])
+//@   ensures old(has(ro, id)) ==> result == old(ro[id])
+//@   ensures !old(has(ro, id)) ==> fresh(result) && zeroed(result)
+
+// Wrappers: the ledger is addressed as ro[id].<field>; an absent id reads as the
+// nil object, all of whose fields read as zero values (engine convention).
+
+//@ template wrapCommon(M)
+//@   requires wfRO(ro)
+//@   ensures [wf]     wfRO(ro) && has(ro, id)
+//@   ensures [others] forall j string :: j != id ==> has(ro, j) == old(has(ro, j)) && ro[j] == old(ro[j])
+//@   ensures [same]   old(has(ro, id)) ==> ro[id] == old(ro[id])
+//@ end
+
+//@ template wrapScalar(M, F)
+//@ func resultOwners.$M
+//@   props C01 C02 C05
+//@   modifies map(ro), ro[id].$F
+//@ apply wrapCommon($M)
+//@   ensures [new]   !old(has(ro, id)) ==> fresh(ro[id]) && zeroedexcept(ro[id], "$F")
+//@   ensures [taken] old(ro[id].$F) != "" ==> result != nil && ro[id].$F == old(ro[id].$F)
+//@   ensures [free]  old(ro[id].$F) == "" ==> result == nil && ro[id].$F == plugin
+//@ end
+
+//@ template wrapKeyed(M, F, K)
+//@ func resultOwners.$M
+//@   props C01 C02 C05
+//@   modifies map(ro), ro[id].$F, map(ro[id].$F)
+//@ apply wrapCommon($M)
+//@   ensures [new]   !old(has(ro, id)) ==> fresh(ro[id]) && zeroedexcept(ro[id], "$F")
+//@   ensures [taken] old(has(ro[id].$F, $K)) ==> result != nil && ro[id].$F == old(ro[id].$F)
+//@        && forall k string :: has(ro[id].$F, k) == old(has(ro[id].$F, k)) && ro[id].$F[k] == old(ro[id].$F[k])
+//@   ensures [free]  !old(has(ro[id].$F, $K)) ==> result == nil && ro[id].$F != nil && has(ro[id].$F, $K) && ro[id].$F[$K] == plugin
+//@        && forall k string :: k != $K ==> has(ro[id].$F, k) == old(has(ro[id].$F, k)) && ro[id].$F[k] == old(ro[id].$F[k])
+//@   ensures [stable] old(ro[id].$F) != nil ==> ro[id].$F == old(ro[id].$F)
+//@   ensures [freshmap] old(ro[id].$F) == nil ==> fresh(ro[id].$F) || ro[id].$F == nil
+//@ end
+
+//@ template wrapClear(M, F, K)
+//@ func resultOwners.$M
+//@   props C01 C02
+//@   modifies map(ro), map(ro[id].$F)
+//@ apply wrapCommon($M)
+//@   ensures [new]     !old(has(ro, id)) ==> fresh(ro[id]) && zeroed(ro[id])
+//@   ensures [cleared] !has(ro[id].$F, $K) && ro[id].$F == old(ro[id].$F)
+//@   ensures [keys]    forall k string :: k != $K ==> has(ro[id].$F, k) == old(has(ro[id].$F, k)) && ro[id].$F[k] == old(ro[id].$F[k])
+//@ end
+
+//@ func resultOwners.clearArgs
+//@   props C01 C02
+//@   modifies map(ro), ro[id].args
+//@ apply wrapCommon(clearArgs)
+//@   ensures [new]     !old(has(ro, id)) ==> fresh(ro[id]) && zeroed(ro[id])
+//@   ensures [cleared] ro[id].args == ""
+
+//@ apply claimScalar(claimArgs, args)
+//@ apply claimScalar(claimMemLimit, memLimit)
+//@ apply claimScalar(claimMemReservation, memReservation)
+//@ apply claimScalar(claimMemSwapLimit, memSwapLimit)
+//@ apply claimScalar(claimMemKernelLimit, memKernelLimit)
+//@ apply claimScalar(claimMemTCPLimit, memTCPLimit)
+//@ apply claimScalar(claimMemSwappiness, memSwappiness)
+//@ apply claimScalar(claimMemDisableOomKiller, memDisableOomKiller)
+//@ apply claimScalar(claimMemUseHierarchy, memUseHierarchy)
+//@ apply claimScalar(claimCpuShares, cpuShares)
+//@ apply claimScalar(claimCpuQuota, cpuQuota)
+//@ apply claimScalar(claimCpuPeriod, cpuPeriod)
+//@ apply claimScalar(claimCpuRealtimeRuntime, cpuRealtimeRuntime)
+//@ apply claimScalar(claimCpuRealtimePeriod, cpuRealtimePeriod)
+//@ apply claimScalar(claimCpusetCpus, cpusetCpus)
+//@ apply claimScalar(claimCpusetMems, cpusetMems)
+//@ apply claimScalar(claimPidsLimit, pidsLimit)
+//@ apply claimScalar(claimBlockioClass, blockioClass)
+//@ apply claimScalar(claimRdtClass, rdtClass)
+//@ apply claimScalar(claimCgroupsPath, cgroupsPath)
+//@ apply claimScalar(claimOomScoreAdj, oomScoreAdj)
+
+//@ apply claimKeyed(claimAnnotation, annotations, key)
+//@ apply claimKeyed(claimMount, mounts, destination)
+//@ apply claimKeyed(claimDevice, devices, path)
+//@ apply claimKeyed(claimCDIDevice, cdiDevices, name)
+//@ apply claimKeyed(claimEnv, env, name)
+//@ apply claimKeyed(claimHugepageLimit, hugepageLimits, size)
+//@ apply claimKeyed(claimUnified, unified, key)
+//@ apply claimKeyed(claimRlimit, rlimits, typ)
+
+//@ apply clearKeyed(clearAnnotation, annotations, key)
+//@ apply clearKeyed(clearMount, mounts, destination)
+//@ apply clearKeyed(clearDevice, devices, path)
+//@ apply clearKeyed(clearEnv, env, name)
+
+//@ apply wrapScalar(claimArgs, args)
+//@ apply wrapScalar(claimMemLimit, memLimit)
+//@ apply wrapScalar(claimMemReservation, memReservation)
+//@ apply wrapScalar(claimMemSwapLimit, memSwapLimit)
+//@ apply wrapScalar(claimMemKernelLimit, memKernelLimit)
+//@ apply wrapScalar(claimMemTCPLimit, memTCPLimit)
+//@ apply wrapScalar(claimMemSwappiness, memSwappiness)
+//@ apply wrapScalar(claimMemDisableOomKiller, memDisableOomKiller)
+//@ apply wrapScalar(claimMemUseHierarchy, memUseHierarchy)
+//@ apply wrapScalar(claimCpuShares, cpuShares)
+//@ apply wrapScalar(claimCpuQuota, cpuQuota)
+//@ apply wrapScalar(claimCpuPeriod, cpuPeriod)
+//@ apply wrapScalar(claimCpuRealtimeRuntime, cpuRealtimeRuntime)
+//@ apply wrapScalar(claimCpuRealtimePeriod, cpuRealtimePeriod)
+//@ apply wrapScalar(claimCpusetCpus, cpusetCpus)
+//@ apply wrapScalar(claimCpusetMems, cpusetMems)
+//@ apply wrapScalar(claimPidsLimit, pidsLimit)
+//@ apply wrapScalar(claimBlockioClass, blockioClass)
+//@ apply wrapScalar(claimRdtClass, rdtClass)
+//@ apply wrapScalar(claimCgroupsPath, cgroupsPath)
+//@ apply wrapScalar(claimOomScoreAdj, oomScoreAdj)
+
+//@ apply wrapKeyed(claimAnnotation, annotations, key)
+//@ apply wrapKeyed(claimMount, mounts, destination)
+//@ apply wrapKeyed(claimDevice, devices, path)
+//@ apply wrapKeyed(claimCDIDevice, cdiDevices, path)
+//@ apply wrapKeyed(claimEnv, env, name)
+//@ apply wrapKeyed(claimHugepageLimit, hugepageLimits, size)
+//@ apply wrapKeyed(claimUnified, unified, key)
+//@ apply wrapKeyed(claimRlimits, rlimits, typ)
+
+//@ apply wrapClear(clearAnnotation, annotations, key)
+//@ apply wrapClear(clearMount, mounts, destination)
+//@ apply wrapClear(clearDevice, devices, path)
+//@ apply wrapClear(clearEnv, env, name)
